@@ -1,15 +1,28 @@
 """Static analysis of the assembly files written by `dora compile -S` (C10).
 
-parse()      reads one .s: the machine code of every function (`.byte` lines between the global label and
-             `.Ldora_aot_function_end_N`), its `.reloc` entries, the code-offset labels of jump tables and the metadata
-             tables (.dora.functions/.gcpoints/.gcpoint_offsets/.gcpoint_interior_pointers/.locations/.inlined_functions/
-             .function_info) with the layouts of dora-runtime/src/startup.rs.
-disassemble() runs llvm-mc once per file over the code of all functions (linear sweep; 16 separator bytes between
-             functions) and cuts the instruction stream back into functions with exact byte offsets.
-analyse()    checks every function of the file and returns (problems, statistics).
+parse()       reads one .s: the machine code of every function (`.byte` lines between the global label and
+              `.Ldora_aot_function_end_N`), its `.reloc` entries, the code-offset labels and the jump tables, and the
+              metadata tables (.dora.functions/.gcpoints/.gcpoint_offsets/.gcpoint_interior_pointers/.locations/
+              .inlined_functions/.function_info) with the layouts of dora-runtime/src/startup.rs.
+disassemble() runs llvm-mc once over the code of the given functions (linear sweep per function, every instruction's
+              re-encoding compared with the bytes) and cuts off constant pools behind the code.
+analyse()     checks every function of the file and the file-level relations; returns (problems, statistics).
 
 Nothing here samples: every function of a parsed file is analysed.
+
+Calibrations made on the unchanged tree (each is an over-demand of an earlier version of this analysis, not a defect):
+  * frame extent is per call site (fp - sp by data flow): the optimizing generator pushes live registers around its slow
+    paths, so slots below the prologue's `sub` are inside the frame there;
+  * the optimizing generator lists stack-passed arguments at fp+16+8k in the callee's maps (its spill slot of an `Arg`);
+  * runtime-entry/unreachable/fatal-error/stack-overflow trampolines carry exactly one map at offset 0 (that is what
+    gc/root.rs reads); trap, safepoint and gc-allocation trampolines carry an unused one at 0 as well; dora-entry none;
+  * maps at calls that never return (trap/stack-overflow/unreachable/fatal) and at the write-barrier slow path are
+    optional: cannon maps the stack-overflow call, boots does not; neither maps the write barrier;
+  * both generators append constants (floats) to the code: addressed pc-relatively without relocation, cut off the sweep;
+  * cannon emits dead code behind unconditional jumps (calls with maps included): analysed, counted, not reported;
+  * zero-fill loops of fresh arrays/objects and ll/sc retry loops have no safepoint poll by design.
 """
+import bisect
 import re
 import subprocess
 
@@ -46,7 +59,7 @@ class ParseError(Exception):
 
 class Func:
     __slots__ = ("sym", "index", "code", "relocs", "labels", "end_label", "addr", "insns", "sync_lost", "line", "decoded_end",
-                 "data_start")
+                 "data_start", "succ", "micro_loops")
 
     def __init__(self, sym, index, line):
         self.sym = sym
@@ -69,6 +82,7 @@ class Asm:
         self.text_label_count = {}
         self.globl = []
         self.sections = {}       # section name -> [('q'|'l', value)] where value is int or (symbol, addend)
+        self.jump_tables = {}    # label of a table in .dora.jump_tables -> [code offsets inside its function]
         self.opaque_text_after = None
         self.arch = None
 
@@ -95,6 +109,7 @@ def parse(path):
     pos = 0            # address in .text
     cur = None         # function being read
     pending_globl = None
+    cur_table = None
     opaque = False     # instructions of unknown size seen in .text (only the final `main`)
     with open(path, "r", errors="replace") as f:
         for lineno, raw in enumerate(f, 1):
@@ -173,6 +188,8 @@ def parse(path):
                         cur.addr = pos
                         a.funcs.append(cur)
                         a.by_sym.setdefault(lab, []).append(cur)
+                elif section == ".dora.jump_tables":
+                    cur_table = a.jump_tables.setdefault(lab, [])
                 continue
             if section == ".text":
                 # real instructions: only the C entry `main` at the very end of .text
@@ -183,6 +200,12 @@ def parse(path):
             if line.startswith(".long"):
                 a.sections.setdefault(section, []).append(("l", _value(line[5:])))
             elif line.startswith(".quad"):
+                if section == ".dora.jump_tables":
+                    m = re.search(r"_offset_(\d+)$", line)
+                    if m is None or cur_table is None:
+                        raise ParseError("%s:%d: unexpected jump table entry %r" % (path, lineno, line))
+                    cur_table.append(int(m.group(1)))
+                    continue
                 a.sections.setdefault(section, []).append(("q", _value(line[5:])))
             # .byte/.zero in data sections are not needed
     if cur is not None:
@@ -250,8 +273,6 @@ def tables(a):
 # ---------------------------------------------------------------------------------------------
 # disassembly
 
-_RE_ENC = re.compile(r"encoding: \[([^\]]*)\]")
-_RE_WARN = re.compile(r"^<stdin>:(\d+):(\d+): warning: (.*)$")
 
 
 _SEP = {
@@ -261,64 +282,90 @@ _SEP = {
 }
 
 
-def disassemble(a, arch, funcs=None):
+def disassemble(a, arch, funcs=None, tmpdir=None):
     """Fills f.insns for every function (or the given ones) with one llvm-mc process (linear sweep per function).
     Every function is an atomic block `[ bytes ]` of the input, followed by a separator block: decoding of a block
     stops at its first undecodable byte and the next block starts cleanly.  llvm-mc prints no addresses; offsets come
     from the re-encoding it prints (--show-encoding), and every instruction's re-encoded bytes are compared with the
     function's bytes at that offset -- the sweep stops at the first difference (f.decoded_end).  So an instruction list
-    that reaches the end of the code is known to be in step with the bytes."""
-    funcs = a.funcs if funcs is None else funcs
+    that reaches the end of the code is known to be in step with the bytes.
+    Input and output are streamed (large buffers are expensive in this sandbox)."""
+    import tempfile
+    funcs = a.funcs if funcs is None else funcs   # (functions of several files may be passed with a = None)
     sep_bytes, sep_txt = _SEP[arch]
-    lines = []
-    for f in funcs:
-        lines.append("[ " + " ".join("0x%02x" % b for b in f.code) + " ]")
-        lines.append("[ " + sep_bytes + " ]")
-    text = "\n".join(lines) + "\n"
+    sep_line = "[ " + sep_bytes + " ]\n"
+    hexes = ["0x%02x" % i for i in range(256)]
     if arch == "x64":
         cmd = ["llvm-mc", "--disassemble", "-triple=x86_64", "-output-asm-variant=1", "--show-encoding"]
     else:
         cmd = ["llvm-mc", "--disassemble", "-triple=aarch64", "-mattr=+lse,+v8.1a,+fp-armv8,+neon", "--show-encoding"]
-    p = subprocess.run(cmd, input=text.encode(), stdout=subprocess.PIPE, stderr=subprocess.PIPE)
-    if p.returncode != 0 and not p.stdout:
-        raise ParseError("llvm-mc failed: " + p.stderr.decode("utf-8", "replace")[-1000:])
-    chunks = [[]]
-    nsep = len(sep_txt)
-    for l in p.stdout.decode("utf-8", "replace").splitlines():
-        m = _RE_ENC.search(l)
-        if not m:
-            continue
-        txt = l[:m.start()].rstrip().rstrip("#/").strip()
-        cur = chunks[-1]
-        cur.append((m.group(1), txt))
-        if len(cur) >= nsep and _norm(txt) == sep_txt[-1] and [_norm(x[1]) for x in cur[-nsep:]] == sep_txt:
-            del cur[-nsep:]
-            chunks.append([])
-    if len(chunks) != len(funcs) + 1 or chunks[-1]:
-        raise ParseError("disassembly: %d instruction groups for %d functions" % (len(chunks) - 1, len(funcs)))
-    for f, chunk in zip(funcs, chunks):
-        code = f.code
-        size = len(code)
-        insns = []
-        off = 0
-        for enc, txt in chunk:
-            parts = enc.split(",")
-            n = len(parts)
-            if off + n > size:
+    with tempfile.NamedTemporaryFile("w", suffix=".hex", dir=tmpdir or _default_tmp(), delete=True) as tf:
+        for f in funcs:
+            code = f.code
+            tf.write("[\n")
+            for i in range(0, len(code), 32):
+                tf.write(" ".join([hexes[b] for b in code[i:i + 32]]))
+                tf.write("\n")
+            tf.write("]\n")
+            tf.write(sep_line)
+        tf.flush()
+        proc = subprocess.Popen(cmd + [tf.name], stdout=subprocess.PIPE, stderr=subprocess.DEVNULL)
+        nsep = len(sep_txt)
+        last_sep = sep_txt[-1]
+        fi = 0
+        cur = []
+        nfuncs = len(funcs)
+        for raw in proc.stdout:
+            k = raw.find(b"encoding: [")
+            if k < 0:
+                continue
+            l = raw.decode("utf-8", "replace")
+            k = l.find("encoding: [")
+            enc = l[k + 11:l.index("]", k)]
+            txt = l[:k].rstrip(" \t#/").strip().replace("\t", " ")
+            cur.append((enc, txt))
+            if txt == last_sep and len(cur) >= nsep and [x[1] for x in cur[-nsep:]] == sep_txt:
+                del cur[-nsep:]
+                if fi >= nfuncs:
+                    proc.kill()
+                    raise ParseError("disassembly: more instruction groups than functions")
+                _assign(funcs[fi], cur, arch)
+                fi += 1
+                cur = []
+        proc.wait()
+    if fi != nfuncs or cur:
+        raise ParseError("disassembly: %d instruction groups for %d functions (llvm-mc exit %s)" % (fi, nfuncs, proc.returncode))
+
+
+def _default_tmp():
+    import os
+    d = os.environ.get("VERIF_SCRATCH", "/var/tmp")
+    return d
+
+
+def _assign(f, chunk, arch):
+    code = f.code
+    size = len(code)
+    insns = []
+    off = 0
+    for enc, txt in chunk:
+        parts = enc.split(",")
+        n = len(parts)
+        if off + n > size:
+            break
+        ok = True
+        for i, b in enumerate(parts):
+            if b[0] == "0" and int(b, 16) != code[off + i]:
+                ok = False
                 break
-            ok = True
-            for i, b in enumerate(parts):
-                if b[0] == "0" and int(b, 16) != code[off + i]:
-                    ok = False
-                    break
-            if not ok:
-                break
-            insns.append((off, n, txt))
-            off += n
-        f.insns = insns
-        f.decoded_end = off
-        cut_data_region(f, arch)
-        f.sync_lost = [f.decoded_end] if f.decoded_end < f.data_start else []
+        if not ok:
+            break
+        insns.append((off, n, txt))
+        off += n
+    f.insns = insns
+    f.decoded_end = off
+    cut_data_region(f, arch)
+    f.sync_lost = [f.decoded_end] if f.decoded_end < f.data_start else []
 
 
 _RE_RIPREL = re.compile(r"\[rip ([-+]) (\d+)\]")
@@ -360,17 +407,10 @@ def cut_data_region(f, arch):
 # ---------------------------------------------------------------------------------------------
 # per-architecture instruction reading
 
-_X64_PUSH = re.compile(r"push\s+(r\w+)$")
-_X64_SUB_RSP = re.compile(r"sub\s+rsp, (-?\d+|0x[0-9a-f]+)$")
-_A64_SUB_SP = re.compile(r"sub\s+sp, sp, #(\d+|0x[0-9a-f]+)(?:, lsl #(\d+))?$")
-_A64_SUB_SP_REG = re.compile(r"sub\s+sp, sp, (x\d+)(?:, uxtx)?$")
-_A64_MOVZ = re.compile(r"mov\s+(x\d+), #(-?\d+|0x[0-9a-f]+)$")
-_A64_MOVZ2 = re.compile(r"movz\s+(x\d+), #(\d+|0x[0-9a-f]+)(?:, lsl #(\d+))?$")
-_A64_MOVK = re.compile(r"movk\s+(x\d+), #(\d+|0x[0-9a-f]+)(?:, lsl #(\d+))?$")
 
 
 def _norm(txt):
-    return re.sub(r"\s+", " ", txt.strip())
+    return txt  # instruction texts are normalised (single spaces) when they are read from the disassembler
 
 
 def _imm(x):
@@ -383,62 +423,83 @@ _X64_MOVIMM = re.compile(r"(?:mov|movabs) (r\w+|e\w+), (-?\d+|0x[0-9a-f]+)$")
 
 def _step_x64(t, d, consts):
     """effect of one instruction on d = rbp - rsp.  Returns (new d | None if unknown, note)."""
-    if t.startswith("push "):
+    sp = t.find(" ")
+    mn = t[:sp] if sp > 0 else t
+    if mn in ("push", "pushfq"):
         return d + 8, None
-    if t.startswith("pop "):
+    if mn in ("pop", "popfq"):
         if t == "pop rsp":
             return None, t
         return d - 8, None
-    m = re.match(r"(sub|add) rsp, (-?\d+|0x[0-9a-f]+)$", t)
-    if m:
-        v = _imm(m.group(2))
-        return (d + v if m.group(1) == "sub" else d - v), None
-    m = re.match(r"(sub|add) rsp, (r\w+)$", t)
-    if m:
-        r = m.group(2)
-        v = consts.get(r, consts.get("e" + r[1:]))
-        if v is None:
-            return None, t
-        return (d + v if m.group(1) == "sub" else d - v), None
-    if t == "mov rsp, rbp":
-        return 0, None
-    if t == "leave":
+    if mn == "leave":
         return -8, None
-    if re.match(r"\w+ rsp,", t) and not t.startswith(("cmp ", "test ")):
+    if mn == "enter":
         return None, t
-    if re.match(r"(?!cmp |test |push )\w+ rbp\b", t) and not t.startswith("pop rbp"):
+    if sp < 0:
+        return d, None
+    if t.startswith("rsp,", sp + 1):
+        if mn in ("cmp", "test"):
+            return d, None
+        rest = t[sp + 6:]
+        if mn in ("sub", "add"):
+            try:
+                v = int(rest, 0)
+            except ValueError:
+                v = consts.get(rest, consts.get("e" + rest[1:]))
+                if v is None:
+                    return None, t
+            return (d + v if mn == "sub" else d - v), None
+        if t == "mov rsp, rbp":
+            return 0, None
+        return None, t
+    if t.startswith("rbp", sp + 1) and (len(t) == sp + 4 or t[sp + 4] == ","):
+        if mn in ("cmp", "test"):
+            return d, None
         return None, t  # the frame pointer must stay put
     return d, None
 
 
 _A64_BR = re.compile(r"(b|b\.\w+|cbn?z \w+,|tbn?z \w+, #\d+,) #(-?\d+)$")
+_A64_NOWRITE = ("cmp", "cmn", "tst", "cbz", "cbnz", "tbz", "tbnz")
 
 
 def _step_a64(t, d, consts):
-    m = re.search(r"\[sp, #(-?\d+)\]!$", t)
-    if m:
-        return d - _imm(m.group(1)), None
-    m = re.search(r"\[sp\], #(-?\d+)$", t)
-    if m:
-        return d - _imm(m.group(1)), None
-    m = re.match(r"(sub|add) sp, sp, #(\d+|0x[0-9a-f]+)(?:, lsl #(\d+))?$", t)
-    if m:
-        v = _imm(m.group(2)) << int(m.group(3) or 0)
-        return (d + v if m.group(1) == "sub" else d - v), None
-    m = re.match(r"(sub|add) sp, sp, (x\d+)(?:, uxtx)?$", t)
-    if m:
-        v = consts.get(m.group(2))
-        if v is None:
-            return None, t
-        return (d + v if m.group(1) == "sub" else d - v), None
-    if t in ("mov sp, x29", "add sp, x29, xzr", "add sp, x29, #0"):
-        return 0, None
-    if re.match(r"\w+ (sp|wsp),", t) and not t.startswith(("cmp ", "cmn ", "tst ")):
+    sp = t.find(" ")
+    if sp < 0:
+        return d, None
+    mn = t[:sp]
+    nd = d
+    if t.endswith("]!"):
+        k = t.rfind("[sp, #")
+        if k >= 0:
+            nd = d - int(t[k + 6:-2], 0)       # stp a, b, [sp, #-16]!  grows the frame by 16
+    else:
+        k = t.rfind("[sp], #")
+        if k >= 0:
+            nd = d - int(t[k + 7:], 0)
+    if t.startswith("sp,", sp + 1) or t.startswith("wsp,", sp + 1):
+        if mn in _A64_NOWRITE:
+            return d, None
+        m = re.match(r"(sub|add) sp, sp, #(\d+|0x[0-9a-f]+)(?:, lsl #(\d+))?$", t)
+        if m:
+            v = _imm(m.group(2)) << int(m.group(3) or 0)
+            return (d + v if m.group(1) == "sub" else d - v), None
+        m = re.match(r"(sub|add) sp, sp, (x\d+)(?:, uxtx)?$", t)
+        if m:
+            v = consts.get(m.group(2))
+            if v is None:
+                return None, t
+            return (d + v if m.group(1) == "sub" else d - v), None
+        if t in ("mov sp, x29", "add sp, x29, xzr", "add sp, x29, #0"):
+            return 0, None
         return None, t
-    if re.match(r"(?!cmp |cmn |tst |st|cb|tb)\w+ x29,", t) or re.match(r"ldp x29,|ldp \w+, x29,", t):
-        if not re.match(r"ldp x29, x30, \[sp\], #16$", t):
-            return None, t
-    return d, None
+    if t.startswith("x29,", sp + 1) or (mn == "ldp" and ", x29, [" in t):
+        if mn in _A64_NOWRITE or mn.startswith("st"):
+            return nd, None
+        if t == "ldp x29, x30, [sp], #16":
+            return nd, None
+        return None, t  # the frame pointer must stay put
+    return nd, None
 
 
 def _track_const(arch, t, consts):
@@ -468,13 +529,15 @@ def _track_const(arch, t, consts):
         del consts[m.group(1)]
 
 
-def stack_depths(f, arch):
+def stack_depths(f, arch, noreturn=(), jump_tables=None):
     """Forward data flow over the function's control-flow graph: for every reachable instruction the distance
     d = frame pointer - stack pointer before it executes.  The frame at a call site is [fp - d, fp).
     (boots saves live registers with pushes around slow-path calls, so the frame is not a per-function constant.)
-    Returns (depth dict offset -> d, issues [(class, text)])."""
+    Returns (depth dict offset -> d, issues [(class, text)], offsets of dead code); f.succ = successor offsets of
+    every instruction that changes the flow of control (all others fall through)."""
     insns = f.insns
     issues = []
+    f.succ = succ = {}
     t = [_norm(x[2]) for x in insns]
     if arch == "x64":
         ok = len(t) >= 2 and t[0] == "push rbp" and t[1] == "mov rbp, rsp"
@@ -486,6 +549,20 @@ def stack_depths(f, arch):
         return None, [("prologue-unrecognised", "prologue is %s" % "; ".join(t[:3]))], set()
     index = {o: i for i, (o, _, _) in enumerate(insns)}
     size = len(f.code)
+    table_at = {}
+    if jump_tables:
+        for o, typ, target, _ in f.relocs:
+            if target in jump_tables:
+                table_at[o] = jump_tables[target]
+
+    def indirect_targets(i):
+        """the targets of an indirect jump: the table whose address is loaded just before it (else every table target)"""
+        for k in range(i - 1, max(i - 6, -1), -1):
+            o, n, _ = insns[k]
+            for b in range(o, o + n):
+                if b in table_at:
+                    return list(table_at[b])
+        return list(f.labels)
     depth = {}
     dead = set()
     in_dead = False
@@ -529,31 +606,38 @@ def stack_depths(f, arch):
             if nd is None:
                 issues.append(("stack-pointer-write", "offset %d: %s" % (off, note)))
                 nd = d
-            _track_const(arch, x, consts)
+            if i < 16:
+                _track_const(arch, x, consts)
             d = nd
             nxt = off + n
             targets = None
             fall = True
-            if arch == "x64":
-                m = _X64_JCC.match(x)
+            c0 = x[0]
+            if off in noreturn:
+                fall = False
+                succ[off] = []
+            elif arch == "x64":
+                m = _X64_JCC.match(x) if c0 == "j" else None
                 if m:
                     targets = [nxt + int(m.group(2))]
                     fall = m.group(1) != "jmp"
-                elif x.startswith("jmp"):
-                    targets = list(f.labels)  # indirect jump: a jump table of this function
+                elif c0 == "j" and x.startswith("jmp"):
+                    targets = indirect_targets(i)  # indirect jump: a jump table of this function
                     fall = False
                 elif x.startswith("ret") or x in ("int3", "ud2", "hlt"):
                     fall = False
-            else:
+            elif c0 in "bcrtu":
                 m = _A64_BR.match(x)
                 if m:
                     targets = [off + int(m.group(2))]
                     fall = m.group(1) != "b"
                 elif re.match(r"br x\d+$", x):
-                    targets = list(f.labels)
+                    targets = indirect_targets(i)
                     fall = False
                 elif x.startswith("ret") or x.startswith("brk") or x.startswith("udf"):
                     fall = False
+            if targets is not None or not fall:
+                succ[off] = ([nxt] if fall else []) + [tg for tg in (targets or ()) if tg in index]
             if targets:
                 for tg in targets:
                     if tg == size:
@@ -630,7 +714,7 @@ def analyse(a, arch, only=None, file_level=None):
           "optional_with_map": 0, "indirect_calls": 0, "gcpoints": 0, "gcpoint_slots": 0, "interior_pairs": 0,
           "nonempty_maps": 0, "locations": 0, "inlined_functions": 0, "code_bytes": 0, "instructions": 0,
           "max_frame": 0, "callee_classes": {}, "trampoline_caller_slots": 0, "safepoint_polls": 0,
-          "backedges": 0, "atomic_insns": 0, "dead_call_sites": 0, "incoming_stack_arg_slots": 0, "functions_with_constant_pool": 0, "constant_pool_bytes": 0}
+          "backedges": 0, "atomic_insns": 0, "dead_call_sites": 0, "incoming_stack_arg_slots": 0, "functions_with_constant_pool": 0, "constant_pool_bytes": 0, "intrinsic_micro_loops": 0}
     try:
         T = tables(a)
     except ParseError as e:
@@ -746,7 +830,18 @@ def analyse(a, arch, only=None, file_level=None):
 
         # frame extent per call site: fp - sp before the call instruction (data flow over the function)
         calls = calls_x64(f) if arch == "x64" else calls_a64(f)
-        depth, issues, dead = stack_depths(f, arch)
+        # relocations by offset (needed to classify the callees)
+        reloc_at = {}
+        for off, typ, target, addend in f.relocs:
+            reloc_at.setdefault(off, []).append((typ, target, addend))
+        # calls that never return (trap, stack overflow, unreachable, fatal error) end their path
+        noreturn = set()
+        for off, ret, how, txt in calls:
+            if how == "direct":
+                for typ, target, _ in reloc_at.get(off + 1 if arch == "x64" else off, ()):
+                    if kind_of.get(target) in OPTIONAL_CALLEE_KINDS:
+                        noreturn.add(off)
+        depth, issues, dead = stack_depths(f, arch, noreturn, a.jump_tables)
         for cls, text in issues[:3]:
             P.append(Problem(cls, KIND_NAMES[e.kind] + ":" + arch, sym, text))
         why = issues[0][1] if issues else ""
@@ -761,13 +856,11 @@ def analyse(a, arch, only=None, file_level=None):
             fmax = None
 
         fp_args = set()
+        fpmark, fpre = ("[rbp + ", _RE_FPPOS_X64) if arch == "x64" else ("[x29, #", _RE_FPPOS_A64)
         for _, _, txt in f.insns:
-            for m in (_RE_FPPOS_X64 if arch == "x64" else _RE_FPPOS_A64).finditer(txt):
-                fp_args.add(int(m.group(1)))
-        # relocations: every call-type relocation must sit on a direct call/branch
-        reloc_at = {}
-        for off, typ, target, addend in f.relocs:
-            reloc_at.setdefault(off, []).append((typ, target, addend))
+            if fpmark in txt:
+                for m in fpre.finditer(txt):
+                    fp_args.add(int(m.group(1)))
 
         # ---- gcpoints: order, range, slots ----------------------------------------------------
         prev = None
@@ -892,6 +985,11 @@ def analyse(a, arch, only=None, file_level=None):
                         continue  # plain b: tail jump
                     P.append(Problem("reloc-not-a-call", "arm64", sym, "relocation to %s at %d is not on a decoded bl" % (target, off)))
             # ---- safepoint polls and atomics (statistics + entry poll) -----------------------------
+            if depth is not None:
+                harmless = set(off for off, ret, how, txt in calls if ret in ret_optional)
+                for cls, text in poll_coverage(f, arch, depth, dead, harmless):
+                    P.append(Problem(cls, "optimized", sym, text))
+                st["intrinsic_micro_loops"] += f.micro_loops
             polls, backedges, atomics = poll_stats(f, arch)
             st["safepoint_polls"] += polls
             st["backedges"] += backedges
@@ -938,28 +1036,121 @@ def analyse(a, arch, only=None, file_level=None):
     return P, st
 
 
-_X64_POLL = re.compile(r"cmp byte ptr \[r15 \+ \d+\], 0$")
-_A64_POLL = re.compile(r"ldrb w\d+, \[x28, #\d+\]$")
+def is_poll(t, arch):
+    if arch == "x64":
+        return t.startswith("cmp byte ptr [r15 + ") and t.endswith("], 0")
+    return t.startswith("ldrb w") and "[x28, #" in t
+
+
+def poll_coverage(f, arch, depth, dead, harmless_calls=()):
+    """The safepoint poll (C04's modelled poll): (1) on every path the entry poll comes before the first call and
+    (2) every cycle of the control-flow graph contains a poll.  Returns list of (class, text).
+    Works on the successor relation recorded by stack_depths; only reachable code counts."""
+    insns = f.insns
+    succ = f.succ
+    res = []
+    polls = set(o for o, n, t in insns if t[0] in "cl" and is_poll(t, arch))
+    nxt = {}
+    for o, n, t in insns:
+        nxt[o] = o + n
+    # (1) from the entry, stopping at polls: no call may be reachable
+    is_call = (lambda t: t.startswith("call")) if arch == "x64" else (lambda t: t.startswith("bl"))
+    text = dict((o, t) for o, n, t in insns)
+    if len(insns) > 2:
+        seen = set()
+        stack = [insns[2][0]]
+        while stack:
+            o = stack.pop()
+            if o in seen or o in polls or o not in depth or o in dead:
+                continue
+            seen.add(o)
+            if is_call(text[o]) and o not in harmless_calls:
+                res.append(("call-before-entry-poll", "the call at %d can execute before any safepoint poll" % o))
+                break
+            stack.extend(succ[o] if o in succ else [nxt[o]])
+    # (2) cycles avoiding polls: only possible through a backward edge
+    back = [(o, tg) for o, tgs in succ.items() for tg in tgs if tg <= o and o in depth and o not in dead]
+    # calibration: micro loops emitted inside one operation (zero-filling a fresh array/object, load-linked/store-
+    # conditional retry) have no poll by design: a backward branch over at most 96 bytes whose body contains no call and
+    # no branch other than forward exits
+    micro = set()
+    offs = [o for o, n, t in insns]
+    for b, tg in back:
+        # the body [tg, b]: no call, no poll, and every branch inside leaves forward (exit) or is the back branch itself
+        if b - tg > 96:
+            continue
+        ok = True
+        for o in offs[bisect.bisect_left(offs, tg):bisect.bisect_right(offs, b)]:
+            if is_call(text[o]):
+                ok = False
+                break
+            if o in succ and o != b and any(x <= b for x in succ[o] if x != nxt[o]):
+                ok = False
+                break
+        if ok:
+            micro.add((b, tg))
+    back = [e for e in back if e not in micro]
+    f.micro_loops = len(micro)
+    if back:
+        WHITE, GREY, BLACK = 0, 1, 2
+        color = {}
+        for b, start in back:
+            if start in polls or color.get(start, WHITE) != WHITE:
+                continue
+            # iterative DFS
+            stack = [(start, iter(succ[start] if start in succ else [nxt[start]]))]
+            color[start] = GREY
+            while stack:
+                o, it = stack[-1]
+                adv = False
+                for c in it:
+                    if c in polls or c not in depth or (o, c) in micro:
+                        continue
+                    col = color.get(c, WHITE)
+                    if col == GREY:
+                        res.append(("loop-without-poll", "the cycle through %d (closed at %d) contains no safepoint poll" % (c, o)))
+                        return res
+                    if col == WHITE:
+                        color[c] = GREY
+                        stack.append((c, iter(succ[c] if c in succ else [nxt[c]])))
+                        adv = True
+                        break
+                if not adv:
+                    color[o] = BLACK
+                    stack.pop()
+    return res
 
 
 def poll_stats(f, arch):
+    """statistics only: safepoint polls (flag byte of the thread compared with 0), backward branches, atomic instructions"""
     polls = backedges = atomics = 0
-    for off, n, txt in f.insns:
-        t = _norm(txt)
-        if arch == "x64":
-            if _X64_POLL.match(t):
-                polls += 1
-            if t.startswith("lock") or t.startswith("xchg"):
+    if arch == "x64":
+        for off, n, t in f.insns:
+            c0 = t[0]
+            if c0 == "c":
+                if t.startswith("cmp byte ptr [r15 + ") and t.endswith("], 0"):
+                    polls += 1
+            elif c0 == "j":
+                k = t.find(" -")
+                if k > 0 and t[k + 2:].isdigit():
+                    backedges += 1
+            elif c0 == "l" or c0 == "x":
+                if t.startswith("lock") or t.startswith("xchg"):
+                    atomics += 1
+    else:
+        for off, n, t in f.insns:
+            c0 = t[0]
+            if c0 == "l":
+                if t.startswith("ldrb w") and "[x28, #" in t:
+                    polls += 1
+                elif t.startswith(("ldadd", "ldaxr", "ldar", "ldxr")):
+                    atomics += 1
+            elif c0 in "bct":
+                k = t.find("#-")
+                if k > 0 and t[k + 2:].isdigit() and (c0 != "b" or t.startswith(("b ", "b."))):
+                    backedges += 1
+            elif c0 == "s" and t.startswith(("swp", "stlxr", "stlr", "stxr")):
                 atomics += 1
-            m = re.match(r"j\w+ (-?\d+)$", t)
-            if m and int(m.group(1)) < 0:
-                backedges += 1
-        else:
-            if _A64_POLL.match(t):
-                polls += 1
-            if re.match(r"(ldadd|swp|cas|ldaxr|stlxr|ldar|stlr|ldaddal|swpal|casal)", t):
+            elif c0 == "c" and t.startswith("cas"):
                 atomics += 1
-            m = re.match(r"(?:b|b\.\w+|cbn?z \w+,|tbn?z \w+, #\d+,) #(-?\d+)$", t)
-            if m and int(m.group(1)) < 0:
-                backedges += 1
     return polls, backedges, atomics
